@@ -944,6 +944,30 @@ def _third_batch(ctx):
             else:
                 out.append(bad(R, key, 'a poll that finds no result can return Pending without looking at the queue: if whoever was running the queue has stopped and no pool thread is free, the awaiting task is the only one who '
                                'could run it, and it never does', fn=pf.name))
+    # ---- the destructors the protocol leans on exist (a row above that reads one of them is silent when it is gone)
+    for dn, why in (('<desync::ActiveQueue as core::ops::drop::Drop>::drop', 'a job that panics unwinds through this guard, which is what marks the queue Panicked'),
+                    ('<desync::SchedulerFutureSignaller as core::ops::drop::Drop>::drop', 'a job dropped without a result cancels its future here'),
+                    ('<desync::UnsafeJob as core::ops::drop::Drop>::drop', 'the waiting sync() caller is told "done" here, also when the job never ran'),
+                    ('<desync::PipeStream as core::ops::drop::Drop>::drop', 'dropping the output stream closes the pipe and releases its target here'),
+                    ('<desync::Desync as core::ops::drop::Drop>::drop', 'the value is destroyed here, after the queued work')):
+        tyname = dn.split(' as ')[0][1:]
+        if tyname in F.adts:
+            k_ = '%s|destructor-exists' % short(tyname)
+            if F.fn(dn):
+                out.append(ok(R, k_, 'has its destructor', fn=dn))
+            else:
+                out.append(bad(R, k_, '%s no longer has a destructor: %s' % (short(tyname), why)))
+    # ---- PipeStream::poll_next: every poll looks into the buffer
+    pn0 = F.fn('<desync::PipeStream as futures_core::stream::Stream>::poll_next')
+    if pn0:
+        from .rules_lw import FieldUse as _FU
+        u0 = _FU(pn0, 'desync::PipeStreamCore')
+        looks = [bb for (bb, m, t) in u0.calls.get('pending', []) if m in ('pop_front', 'front', 'len', 'is_empty', 'front_mut')]
+        k_ = 'PipeStream::poll_next|looks-into-the-buffer'
+        if looks and _always(pn0, looks):
+            out.append(ok(R, k_, 'every poll of the output stream looks at `pending`', fn=pn0.name))
+        elif looks:
+            out.append(bad(R, k_, 'a poll of the output stream can answer without looking at the buffer: outputs that are already there are not delivered', fn=pn0.name))
     # ---- pool thread body (the closure handed to SchedulerThread::run): it stops only when it found nothing to run, and then it is idle
     sd = F.fn('desync::SchedulerCore::schedule_dormant')
     body = None
